@@ -68,6 +68,7 @@ def check(ctx):
             ctx.guard("C11.a NORMALISE-DOMINATES-USE", f"{cls.name}.{entry}", lambda cls=cls, entry=entry: check_entry(ctx, cls, entry), cls.module.relpath)
     ctx.guard("C11.a NORMALISE-DOMINATES-USE", "scorers", lambda: check_scorers(ctx))
     ctx.guard("C11.b CARRY-INDEX", "converters", lambda: check_converters(ctx))
+    ctx.guard("C11.b CARRY-INDEX", "check_data", lambda: check_normaliser_keeps_index(ctx))
     ctx.guard("C11.d FLOAT-KERNEL", "accumulators", lambda: check_float(ctx))
     ctx.expect_min("C11.a NORMALISE-DOMINATES-USE", sum(1 for o in ctx.obs if "NORMALISE" in o.rule), 30)
 
@@ -177,6 +178,11 @@ def _report_uses(ctx, cls, entry, loc, paths, partial=False):
                 b = e.data["base"]
                 if isinstance(b, Num) and (b.meta.get("normalised") or b.meta.get("foreign") or nf_equal(b.nf, sym("X"))):
                     names.setdefault((e.func.qualname if e.func else "?", norm_src(e.node)[:70]), e)
+            elif e.kind in ("store_opaque", "store_foreign") and e.data.get("index") and isinstance(e.data["index"][0], StrV):
+                t = e.data.get("target")
+                tk = valkey(t) if t is not None else ""
+                if "[X]" in tk or tk.startswith("opq:X") or (isinstance(t, Num) and t.nf is not None and nf_equal(t.nf, sym("X"))):
+                    names.setdefault((e.func.qualname if e.func else "?", norm_src(e.node)[:70]), e)
             elif e.kind == "pandas_ctor" and e.func is not None and e.func.name in ("_predict", "_transform_scores", "transform", "predict", "transform_scores"):
                 dense.append(e)
             elif e.kind == "s2d_call":
@@ -215,6 +221,29 @@ def _carry_index(ctx, cls, entry, dense):
         ia = e.data.get("index")
         ok = isinstance(ia, Num) and ia.nf is not None and nf_equal(ia.nf, want)
         ctx.check(ok, "C11.b CARRY-INDEX", f"{cls.name}.{entry}|{e.func.name}", e.loc(), "a dense output (one row per sample) carries the index of the current argument", found=valkey(ia) if ia is not None else "no index= (fresh RangeIndex)", expected=repr(want))
+
+
+def check_normaliser_keeps_index(ctx):
+    """check_data must hand a DataFrame argument on unchanged (same object: its index and
+    columns are what dense outputs carry); arrays get a fresh frame, Series become frames"""
+    rule = "C11.b CARRY-INDEX"
+    if CHECK_DATA not in ctx.P.functions:
+        ctx.undecided(rule, "check_data", "", "check_data not found")
+        return
+    f = ctx.P.func(CHECK_DATA)
+    ex = new_executor(ctx)
+    st = {}
+
+    def thunk(ex):
+        X = frame_sym(ex)
+        st[id(ex)] = X
+        st["X"] = X
+        return ex.call_function(f, [X, Num(sym("min_length"), (), "int")], {}, None, None)
+
+    paths = run(ctx, ex, thunk)
+    good = returns(paths)
+    same = bool(good) and all(isinstance(p.value, Num) and p.value.pytype == "frame" and p.value.nf is not None and nf_equal(p.value.nf, sym("X")) and not any(e.kind == "pandas_method" and e.data["method"] in ("reset_index", "set_index", "reindex", "rename", "sort_index") for e in p.events) for p in good)
+    ctx.check(same, rule, "check_data|frame-unchanged", f.loc(), "a DataFrame passes through check_data unchanged: index and columns of the argument survive normalisation", found=[repr(p.value)[:80] for p in good][:2] or "no accepting path", expected="the argument itself")
 
 
 def check_scorers(ctx):
